@@ -251,7 +251,6 @@ func (m *VM) step(i int, op *Op) *Rec {
 			rd := callerReader(rnd, op.Ent)
 			if rd == nil {
 				defer useDefault(rnd)()
-		m.Probe("default_entropy_source")
 				m.Probe("default_entropy_source")
 			}
 			var tok *biscuit.Biscuit
@@ -911,11 +910,38 @@ func (m *VM) doDatalog(rec *Rec, op *Op) {
 		}
 		facts = nf
 	}
-	for _, f := range facts {
+	// variants over the rest of World's API; in each of them the world that is finally evaluated holds
+	// exactly the program's facts and rules, so the same least model is expected
+	late := 0
+	if op.Has("incremental") {
+		late = len(facts) / 2
+	}
+	for _, f := range facts[:len(facts)-late] {
 		w.AddFact(datalog.Fact{Predicate: d.Pred(f)})
+	}
+	if op.Has("resetrules") { // rules that are withdrawn before evaluation must leave no trace
+		for _, q := range op.Qs {
+			w.AddRule(d.Rule(q))
+		}
+		w.ResetRules()
 	}
 	for _, r := range op.Blk.Rules {
 		w.AddRule(d.Rule(r))
+	}
+	if op.Has("clone") { // evaluate a clone; the original must stay as it was
+		orig := w
+		w = orig.Clone()
+		defer func() {
+			if n := len(*orig.Facts()); n != len(facts)-late {
+				m.Violate(m.Plan.Property, "cloned-world-changed", "evaluating a clone changed the world it was cloned from", fmt.Sprintf("%d facts before, %d after", len(facts)-late, n))
+			}
+		}()
+	}
+	if op.Has("rerun") || late > 0 { // an earlier evaluation (of a part) of the same world
+		_ = w.Run(syms)
+		for _, f := range facts[len(facts)-late:] {
+			w.AddFact(datalog.Fact{Predicate: d.Pred(f)})
+		}
 	}
 	start := time.Now()
 	err := w.Run(syms)
